@@ -191,6 +191,16 @@ def judge_check(ctx, box, gname, g, m, rng):
         return ctx.violation(None, f"exit 2 although grammar, constraint and input were given; stderr: {err.strip()[-150:]}", wit)
     if "Traceback (most recent call last)" in err:
         return ctx.violation(None, "traceback on stderr", wit)
+    if code == 65:
+        # a well-formed constraint was rejected: find out which known parse-time defect did it
+        from isla.language import parse_isla
+        from isla.isla_predicates import STANDARD_STRUCTURAL_PREDICATES as SP, STANDARD_SEMANTIC_PREDICATES as MP
+        key = None
+        for t in texts:
+            st_, e_ = ctx.guarded(parse_isla, t, g, SP, MP, timeout=20)
+            if st_ == "exc" and "does not match actual number of symbols" in str(e_):
+                key = "C19:constraint-rejected:smtformula-neg-simplified-away-variable"
+        return ctx.violation(key, f"isla check exits 65 for a well-formed constraint; stderr: {err.strip()[-120:]}", wit)
     # expected verdict
     if scenario.startswith("json-") and scenario != "json-tree-valid":
         member = m.member(content)
@@ -214,16 +224,6 @@ def judge_check(ctx, box, gname, g, m, rng):
         if isinstance(ref, tuple):
             return ctx.inconclusive("R2-abstains")
         exp = 0 if ref else 1
-    if code == 65:
-        # a well-formed constraint was rejected: find out which known parse-time defect did it
-        from isla.language import parse_isla
-        from isla.isla_predicates import STANDARD_STRUCTURAL_PREDICATES as SP, STANDARD_SEMANTIC_PREDICATES as MP
-        key = None
-        for t in texts:
-            st_, e_ = ctx.guarded(parse_isla, t, g, SP, MP, timeout=20)
-            if st_ == "exc" and "does not match actual number of symbols" in str(e_):
-                key = "C19:constraint-rejected:smtformula-neg-simplified-away-variable"
-        return ctx.violation(key, f"isla check exits 65 for a well-formed constraint; stderr: {err.strip()[-120:]}", wit)
     if code != exp:
         key = None
         if member:
